@@ -157,11 +157,14 @@ fn observe(id: &J, gen: &str, src: &str, lex: bool, keep_src: bool) -> J {
             Ok(Err(_)) => {
                 // re-parse to get at the span (parse_catch only keeps the message)
                 let e = util::catch(|| match AstModule::parse("c.star", src.to_owned(), d) {
-                    Err(e) => match e.span() {
-                        Some(fs) => json!({"none": false, "b": fs.span.begin().get(), "e": fs.span.end().get()}),
-                        None => json!({"none": true, "b": 0, "e": 0}),
-                    },
-                    Ok(_) => json!({"none": true, "b": 0, "e": 0}),
+                    Err(e) => {
+                        let mlen = format!("{}", e.without_diagnostic()).len();
+                        match e.span() {
+                            Some(fs) => json!({"none": false, "b": fs.span.begin().get(), "e": fs.span.end().get(), "mlen": mlen}),
+                            None => json!({"none": true, "b": 0, "e": 0, "mlen": mlen}),
+                        }
+                    }
+                    Ok(_) => json!({"none": true, "b": 0, "e": 0, "mlen": 0}),
                 });
                 match e {
                     Ok(e) => {
